@@ -635,8 +635,162 @@ Proof.
   induction probs as [|v r IH]; intros C N ids O L P k Hk; destruct ids as [|j c]; simpl in *; try lia.
   destruct O as [Hj O]. inversion C as [|? ? Cv Cr]; subst. inversion N as [|? ? Nv Nr]; subst.
   pose proof (nth_nonneg v j Nv) as Nj.
-  destruct (jointp_unit_nonneg r c Nr) as Jn.
+  pose proof (jointp_unit_nonneg r c Nr) as Jn.
   destruct k as [|k].
   - rewrite Forall_forall in Cv. destruct (Cv (nth j v 0) (nth_In _ _ Hj)) as [Z|B]; auto. rewrite Z in P. lra.
   - apply IH; auto; try lia. destruct (Qlt_le_dec 0 (jointp r c)); auto. nra.
+Qed.
+
+Lemma qsumf_bounds {A} (f : A -> Q) (c : Q) l : (forall x, In x l -> 0 <= f x /\ f x <= c) ->
+  0 <= qsumf f l /\ qsumf f l <= c * nq (length l).
+Proof.
+  unfold qsumf. induction l as [|a l IH]; intros H; simpl.
+  - assert (nq 0 == 0) as -> by reflexivity. lra.
+  - destruct (H a (or_introl eq_refl)) as [A0 A1]. destruct IH as [B0 B1]; [intros; apply H; now right|].
+    change (nq (Datatypes.S (length l))) with (nq (S (length l))). rewrite nq_S. lra.
+Qed.
+
+Lemma qsumf_lower {A} (f : A -> Q) (c : Q) l : (forall x, In x l -> c <= f x) -> c * nq (length l) <= qsumf f l.
+Proof.
+  unfold qsumf. induction l as [|a l IH]; intros H; simpl.
+  - assert (nq 0 == 0) as -> by reflexivity. lra.
+  - pose proof (H a (or_introl eq_refl)). assert (c * nq (length l) <= qsum (map f l)) by (apply IH; intros; apply H; now right).
+    change (nq (Datatypes.S (length l))) with (nq (S (length l))). rewrite nq_S. lra.
+Qed.
+
+Lemma qprod_ones probs : valid probs -> qprod (map qsum probs) == 1.
+Proof. induction 1 as [|v r [_ S] _ IH]; simpl; [reflexivity|]. rewrite S, IH. ring. Qed.
+
+Lemma cart_length_le probs : (length (cart (map (@length Q) probs)) <= S (tree_size probs))%nat.
+Proof.
+  induction probs as [|v r IH]; simpl; [lia|].
+  assert (forall n a, length (flat_map (fun i => map (cons i) (cart (map (@length Q) r))) (seq a n))
+                      = (n * length (cart (map (@length Q) r)))%nat) as G.
+  { induction n as [|n IHn]; intros a; cbn [seq flat_map]; [reflexivity|].
+    rewrite app_length, map_length, IHn. simpl. reflexivity. }
+  rewrite G.
+  pose proof (Nat.mul_le_mono_l _ _ (length v) IH) as M. lia.
+Qed.
+
+Lemma filter_length_le {A} (f : A -> bool) l : (length (filter f l) <= length l)%nat.
+Proof. induction l as [|a l IH]; simpl; [lia|]. destruct (f a); simpl; lia. Qed.
+
+Lemma qsumf_zero {A} (l : list A) : qsumf (fun _ => 0) l == 0.
+Proof. unfold qsumf. induction l as [|a l IH]; simpl; [reflexivity|]. rewrite IH. ring. Qed.
+
+Lemma wsum_exact_map (f : key -> Q) m l : wsum (map (fun ids => (ids, (m * f ids, EXACT))) l) == m * qsumf f l.
+Proof. unfold wsum, qsumf. induction l as [|a l IH]; simpl; [ring|rewrite IH; ring]. Qed.
+
+Lemma all_exact_count_sum probs q mins :
+  valid probs -> 1 <= q -> all_some (map min_filter_nonzero probs) = Some mins -> 1 / q <= qprod mins ->
+  let r := all_exact probs q in
+  wsum r <= q /\ q - wsum r <= q * (nonzero_atol * nq (S (tree_size probs))) /\
+  (Forall (Forall band_free) probs -> nonzero_atol * q <= 1 ->
+     wsum r == q /\ (Z.of_nat (length r) <= Qceiling q)%Z).
+Proof.
+  intros V Hq Em Ae r. pose proof atol_pos as Ap. destruct (thr_facts q Hq) as [T0 T1].
+  pose proof (valid_nonneg _ V) as Nn.
+  set (cs := cart (map (@length Q) probs)).
+  set (keep := fun ids => negb (Qltb (jointp probs ids) nonzero_atol)).
+  assert (r = map (fun ids => (ids, (q * jointp probs ids, EXACT))) (filter keep cs)) as Er by apply all_exact_list.
+  assert (qsumf (jointp probs) cs == 1) as Tot by (unfold cs; rewrite cart_sum; now apply qprod_ones).
+  pose proof (qsumf_filter_split (jointp probs) keep cs) as Sp. rewrite Tot in Sp.
+  assert (forall ids, In ids cs -> idx_ok probs ids /\ length ids = length probs) as InC by (intros; now apply In_cart).
+  destruct (qsumf_bounds (jointp probs) nonzero_atol (filter (fun x => negb (keep x)) cs)) as [Sk0 Sk1].
+  { intros ids I. apply filter_In in I. destruct I as [_ K]. unfold keep in K. rewrite negb_involutive in K.
+    apply Qltb_lt in K. pose proof (jointp_unit_nonneg probs ids Nn). lra. }
+  assert (nq (length (filter (fun x => negb (keep x)) cs)) <= nq (S (tree_size probs))) as Lk.
+  { unfold nq. rewrite <- Zle_Qle. apply inj_le.
+    pose proof (filter_length_le (fun x => negb (keep x)) cs). pose proof (cart_length_le probs). unfold cs in *. lia. }
+  assert (wsum r == q * qsumf (jointp probs) (filter keep cs)) as Wr by (rewrite Er; apply wsum_exact_map).
+  split; [|split].
+  - rewrite Wr. assert (qsumf (jointp probs) (filter keep cs) <= 1) by lra. nra.
+  - rewrite Wr.
+    assert (q - q * qsumf (jointp probs) (filter keep cs) == q * qsumf (jointp probs) (filter (fun x => negb (keep x)) cs)) as ->.
+    { assert (qsumf (jointp probs) (filter keep cs) == 1 - qsumf (jointp probs) (filter (fun x => negb (keep x)) cs)) as -> by lra.
+      ring. }
+    apply Qmult_le_l_nonneg; [lra|]. nra.
+  - intros C A.
+    assert (nonzero_atol <= 1 / q) as At by (apply Qle_shift_div_l; lra).
+    assert (forall ids, In ids cs -> 0 < jointp probs ids -> 1 / q <= jointp probs ids) as Big.
+    { intros ids I P. destruct (InC ids I) as [O L].
+      destruct (jointp_ge_mins probs mins ids Em Nn O L (clean_pos_big probs C Nn ids O L P)) as [_ G]. lra. }
+    assert (qsumf (jointp probs) (filter (fun x => negb (keep x)) cs) == 0) as Z.
+    { rewrite (qsumf_ext _ (fun _ => 0)).
+      - apply qsumf_zero.
+      - intros ids I. apply filter_In in I. destruct I as [I K]. unfold keep in K. rewrite negb_involutive in K.
+        apply Qltb_lt in K. pose proof (jointp_unit_nonneg probs ids Nn) as J.
+        destruct (Qlt_le_dec 0 (jointp probs ids)) as [P|P]; [|lra]. specialize (Big ids I P). lra. }
+    split.
+    + rewrite Wr. assert (qsumf (jointp probs) (filter keep cs) == 1) as -> by lra. ring.
+    + rewrite Er, map_length. apply nq_le_ceil.
+      pose proof (qsumf_lower (jointp probs) (1 / q) (filter keep cs)) as Lw.
+      assert (forall x, In x (filter keep cs) -> 1 / q <= jointp probs x) as Hk.
+      { intros ids I. apply filter_In in I. destruct I as [I K]. unfold keep in K. apply negb_true_iff in K.
+        apply Qltb_ge in K. apply Big; auto. lra. }
+      specialize (Lw Hk).
+      assert (q * (1 / q * nq (length (filter keep cs))) == nq (length (filter keep cs))) as E1 by (field; lra).
+      assert (q * (1 / q * nq (length (filter keep cs))) <= q * qsumf (jointp probs) (filter keep cs)) as E2
+        by (apply Qmult_le_l_nonneg; [lra|exact Lw]).
+      assert (qsumf (jointp probs) (filter keep cs) <= 1) by lra. nra.
+Qed.
+
+(* ---------- the theorem ---------- *)
+Lemma nq_to_nat z : (1 <= z)%Z -> nq (Z.to_nat z) == inject_Z z.
+Proof. intros H. unfold nq. rewrite Z2Nat.id by lia. reflexivity. Qed.
+
+Theorem count_sum probs perms q tape r :
+  valid probs -> sorting_perms_b probs perms = true ->
+  gen_weights probs perms (Fin q) tape = Some (Ok r) ->
+  wsum r <= q /\ q - wsum r <= q * (nonzero_atol * nq (S (tree_size probs))) /\
+  (no_entry_in_cutoff probs perms (1 / q) -> nonzero_atol * q <= 1 ->
+     wsum r == q /\ (Z.of_nat (length r) <= Qceiling q)%Z).
+Proof.
+  intros V HS G. apply gen_weights_fin_inv in G. destruct G as [Hq F].
+  pose proof atol_pos as Ap. destruct (thr_facts q Hq) as [T0 T1].
+  assert (nq (tree_size probs) <= nq (S (tree_size probs))) as TsS by (rewrite nq_S; lra).
+  pose proof (nq_nonneg (tree_size probs)) as Tn.
+  assert (forall mins, all_some (map min_filter_nonzero probs) = Some mins -> ~ 1 / q <= qprod mins -> probs <> []) as NeP.
+  { intros mins Em Na ->. simpl in Em. inversion Em; subst. simpl in Na. lra. }
+  assert (forall ret cond wts0 mins (r' : wdict) (extra : Q) (n' : nat),
+            all_some (map min_filter_nonzero probs) = Some mins -> ~ 1 / q <= qprod mins ->
+            dfs_acc probs perms q = (ret, cond, wts0) ->
+            wsum r' == wsum ret + extra -> extra == wts0 * q -> length r' = (length ret + n')%nat ->
+            (Z.of_nat n' <= Qceiling (wts0 * q))%Z ->
+            wsum r' <= q /\ q - wsum r' <= q * (nonzero_atol * nq (S (tree_size probs))) /\
+            (no_entry_in_cutoff probs perms (1 / q) -> nonzero_atol * q <= 1 ->
+               wsum r' == q /\ (Z.of_nat (length r') <= Qceiling q)%Z)) as Core.
+  { intros ret cond wts0 mins r' extra n' Em Na Eacc Wr Ex Lr Ln.
+    destruct (dfs_acc_mass probs perms q ret cond wts0 V HS Hq (NeP mins Em Na) Eacc)
+      as [lost [L0 [LB [Eq [W0 [Cn Cl]]]]]].
+    assert (wsum r' == q - q * lost) as Wv by (rewrite Wr, Ex; lra).
+    assert (0 <= q * lost) as QL by nra.
+    split; [lra|]. split.
+    - rewrite Wv. assert (q - (q - q * lost) == q * lost) as -> by ring.
+      apply Qmult_le_l_nonneg; [lra|]. nra.
+    - intros [_ Ct] _. rewrite (Cl Ct) in Wv. split; [rewrite Wv; ring|].
+      rewrite Lr, Nat2Z.inj_add.
+      assert (nq (length ret) + wts0 * q <= q) as Hle by lra.
+      pose proof (ceil_add_le (length ret) (wts0 * q) q Hle). lia. }
+  destruct F as [mins Em Ae ->|mins ret cond wts0 Em Na Eacc Hs ->|mins ret cond wts0 rs Em Na Eacc Hs Cn Lw Dn ->
+                |mins ret cond wts0 s t' lg Em Na Eacc Hs Cc Pp Is].
+  - destruct (all_exact_count_sum probs q mins V Hq Em Ae) as [A [B C]].
+    split; auto. split; auto. intros [Cl _] At. apply C; auto.
+  - (* F9, repaired: nothing left to sample *)
+    apply ceil_le_zero in Hs.
+    destruct (dfs_acc_mass probs perms q ret cond wts0 V HS Hq (NeP mins Em Na) Eacc)
+      as [lost [L0 [LB [Eq [W0 [Cn Cl]]]]]].
+    assert (wts0 * q == 0) as Z by nra.
+    apply (Core ret cond wts0 mins ret 0 0%nat); auto; try lra; try lia;
+      try (rewrite Z; reflexivity); try (rewrite Z; simpl; lia).
+  - apply (Core ret cond wts0 mins _ (wts0 * q) 1%nat); auto; try reflexivity; try lia.
+    + rewrite (dset_fresh _ _ _ Dn). apply wsum_snoc.
+    + rewrite (dset_fresh _ _ _ Dn), app_length. reflexivity.
+  - destruct (insert_samples_sum _ _ _ _ Is) as [Ws Ls].
+    destruct (populate_counts cond probs [] _ _ _ _ _ (NeP mins Em Na) Pp) as [Cs Cf].
+    apply (Core ret cond wts0 mins r (wts0 * q / inject_Z (Qceiling (wts0 * q)) * nq (csum s)) (length s)); auto.
+    + rewrite Cs, nq_to_nat by exact Hs. field.
+      assert (inject_Z 1 <= inject_Z (Qceiling (wts0 * q))) as X by (rewrite <- Zle_Qle; exact Hs).
+      change (inject_Z 1) with 1 in X. lra.
+    + pose proof (counts_length s Cf). rewrite Cs in H. lia.
 Qed.
